@@ -43,7 +43,11 @@ class Prop(SeqProp):
     def corpus(self):
         return [self.build_case([("mk", 0, "overlaps", [(2, 6), (4, 10), (12, 14), (6, 2)], 0),
                                  ("mk", 1, "partof", [(0, 20), (4, 6), (4, 6)], 1),
-                                 ("raw", 2, "includes", [(4, 6), (4, 6), (0, 2)], 0)], binops=True, label="mixed relations")]
+                                 ("raw", 2, "includes", [(4, 6), (4, 6), (0, 2)], 0)], binops=True, label="mixed relations"),
+                self.build_case([("mk", 0, "exact", [(2, 4), (6, 8)], 0),
+                                 ("raw", 1, "partof", [(2, 4), (2, 4), (6, 8), (2, 4)], 0),
+                                 ("raw", 2, "exact", [(6, 8), (6, 8)], 2)], binops=True,
+                                label="sets with repeated spans (force_no_dup_check) against smaller sets that contain them")]
 
     def build_case(self, sets, binops=True, probes=(), label=""):
         ops, impl = [], []
@@ -80,7 +84,15 @@ class Prop(SeqProp):
                     if a > b and rng.random() < 0.85:
                         a, b = b, a
                     spans.append((a, b))
-                kind = "raw" if rng.random() < 0.12 else "mk"
+                if sets and rng.random() < 0.35:
+                    # derived from an earlier set: a sample of its spans, with repeats, sometimes one foreign span — so that
+                    # subset / superset / equality hold often, also between sets of different sizes
+                    base = sets[rng.randrange(len(sets))][3]
+                    if base:
+                        spans = [rng.choice(base) for _ in range(rng.choice([1, 2, 3, len(base), len(base) + 2]))]
+                        if rng.random() < 0.25:
+                            spans.insert(rng.randrange(len(spans) + 1), (rng.randint(0, universe), rng.randint(0, universe)))
+                kind = "raw" if rng.random() < 0.3 else "mk"
                 sets.append((kind, name, rng.choice(RELS), spans, rng.randint(0, 2)))
             probes = [(rng.randrange(nsets), rng.randint(0, universe), rng.randint(0, universe)) for _ in range(4)]
             yield self.build_case(sets, True, probes)
